@@ -200,7 +200,14 @@ def compute_shared_sites(codes):
         if co in wrapped:
             offs.add(2)
         if offs:
-            sites[co] = frozenset(offs)
+            # negative numbers: the source lines of those instructions, for runs pre-empted at LINE events
+            lines = set()
+            for ins in ins_cache[co]:
+                if ins.offset in offs and ins.positions and ins.positions.lineno:
+                    lines.add(-ins.positions.lineno)
+            if co in wrapped:
+                lines.add(-(co.co_firstlineno + 1))
+            sites[co] = frozenset(offs | lines)
     return sites
 
 
